@@ -1315,6 +1315,13 @@ def initial_value_options(family, heights, full):
                      (('--coalescent_init', 'param:coalescent.theta', [7.5]), ('--root_height_init', 'root_height', [7.5]))))
     if full:
         rate, height = regression_oracle()
+        # an explicit value wins over the regression estimate of the same quantity, the other quantity keeps the estimate
+        opts.append(((('--root_height_init', '7.5'), ('--rate_init', 'regression')),
+                     (('--root_height_init', 'root_height', [7.5]), ('--rate_init regression', 'param:branchmodel.rate', [rate], 1e-3))))
+        opts.append(((('--root_height_init', '7.5'), ('--heights_init', 'regression')),
+                     (('--root_height_init', 'root_height', [7.5]),)))
+        opts.append(((('--rate_init', '0.002'), ('--heights_init', 'regression')),
+                     (('--rate_init', 'param:branchmodel.rate', [0.002]), ('--heights_init regression', 'root_height', [height], 1e-3, 'inaccurate'))))
         # absolute versions against the independent double-precision regression
         opts.append(((('--rate_init', 'regression'),), (('--rate_init regression', 'param:branchmodel.rate', [rate], 1e-3),)))
         opts.append(((('--heights_init', 'regression'),),
@@ -1336,6 +1343,12 @@ def pairwise_init_configs(subs, full):
             og, wants = initial_value_options(fam, heights, False)[k]
             base = groups_for('HKY', 1, False, 'strict', heights, None) + (FAMILIES[fam],)
             out.append((sub, base + tuple(og), wants, 'values' if fam == 'piecewise-exponential' else False))
+        # initialisation switches pairwise with each other: an explicit value next to a regression estimate
+        rate, height = regression_oracle()
+        out.append(('hmc', groups_for('HKY', 1, False, 'strict', 'ratio', 'constant') + (('--root_height_init', '7.5'), ('--rate_init', 'regression')),
+                    (('--root_height_init', 'root_height', [7.5]), ('--rate_init regression', 'param:branchmodel.rate', [rate], 1e-3)), False))
+        out.append(('advi', groups_for('HKY', 1, False, 'strict', 'ratio', 'constant') + (('--rate_init', '0.002'), ('--heights_init', 'regression')),
+                    (('--rate_init', 'param:branchmodel.rate', [0.002]), ('--heights_init regression', 'root_height', [height], 1e-3, 'inaccurate')), False))
         return out
     for sub in subs:
         for fam, fopts in FAMILIES.items():
@@ -1407,6 +1420,8 @@ def quick_configs():
         ('hmc', groups_for('K80', 1, False, 'strict', 'ratio', 'constant')),
         ('advi', groups_for('SRD06', 1, False, 'strict', 'ratio', 'constant')),
         ('mcmc', groups_for('LG', 1, False, None, 'ratio', None)),
+        # another objective in front of the optimiser
+        ('advi', groups_for('HKY', 1, False, 'strict', 'ratio', 'constant', (('--divergence', 'KLpq'),))),
     ]
     return [(s, g, ()) for s, g in q]
 
